@@ -34,7 +34,7 @@ Definition extract_arg (new_is_obj : bool) (cl : closure) (c : char) (i : nat) :
       else if N.eqb c 102 then match v with CFixed k => Ok (PFloat (fixed_dec k)) | _ => Raise OutOfModel [] end
       else if N.eqb c 115 then
         match v with
-        | CStr None => Ok (PStr (s2l "[null string]"))
+        | CStr None => Ok (PNull None)               (* since the fix of D5: a NULL string is a null argument, as in log mode *)
         | CStr (Some s) => Ok (PStr s)
         | _ => Raise OutOfModel []
         end
@@ -93,7 +93,7 @@ Definition denote_carg (ty : option str) (c : char) (v : cval) : option parg :=
   match v with
   | CInt z => if (N.eqb c 105 || N.eqb c 117)%N then Some (PInt z) else if N.eqb c 104 then Some (PFd z) else None
   | CFixed k => if N.eqb c 102 then Some (PFloat (fixed_dec k)) else None
-  | CStr None => if N.eqb c 115 then Some (PStr (s2l "[null string]")) else None
+  | CStr None => if N.eqb c 115 then Some (PNull None) else None
   | CStr (Some s) => if N.eqb c 115 then Some (PStr s) else None
   | CObj None => if N.eqb c 111 then Some (PNull ty) else None
   | CObj (Some (_, id)) => if N.eqb c 111 then Some (PObj id ty false) else None
